@@ -35,7 +35,7 @@ def load_corpus(kind):
     path = os.path.join(CORPUS, kind + ".json")
     if os.path.exists(path):
         for i, e in enumerate(json.load(open(path))):
-            out.append({"name": "K%d" % i, "body": e["body"], "corpus": e.get("what", ""), "tapes": e.get("tapes")})
+            out.append({"name": "K%s%d" % ("" if kind == "control" else kind.capitalize(), i), "body": e["body"], "corpus": e.get("what", ""), "tapes": e.get("tapes")})
     return out
 
 
